@@ -192,6 +192,7 @@ def run(check, prog):
     # ... and returns numbers at all, whatever ran before (no read of a never-written
     # stack word in the compiled routines)
     _c02.work_arrays_defined(check, prog)
+    _c02.status_examined(check, prog)
 
 
 def cluster(check, prog):
